@@ -6,7 +6,7 @@ p = os.path.join("/verif/seeded", d, "meta.json")
 m = json.load(open(p))
 m["origin"] = "fresh sub-agent given only the property text and its own scratch worktree of /repo"
 if os.path.exists(log):
-    m["confirmed_by_me"] = {"how": "scratch worktree: existing suite with the change; demonstration with and without the change (git stash)",
+    m["confirmed_by_me"] = {"how": "scratch worktree: existing suite with the change; demonstration with and without the change (git apply -R / git apply)",
                             "log": [l.rstrip() for l in open(log) if l.strip()]}
 m["check_run"] = {"cmd": cmd, "how": "git -C /repo apply patch.diff; run; git -C /repo checkout -- .", "result": result}
 json.dump(m, open(p, "w"), indent=1)
